@@ -434,3 +434,100 @@ def verify_global_sample_unbounded(interp):
             out.append(Obl("%s.unbounded.pure" % name, name, fn["_line"], s.pc, z3.BoolVal(False), kind="post"))
     del interp.obls[n0:]
     interp.obls.extend(out)
+
+
+# ------------------------------------------------------------------------------------------------------------
+# Unbounded proof of samples_to_write (the part of the call that belongs to the current file), for every index_len.
+def verify_index_T_unbounded(interp):
+    from .c_blocks import local, set_local
+    Ls = z3.Int("index_len")
+    st, args, a, fn = index_setup(interp, Ls)
+    g, b, V, w, E, nxt = a.g, a.b, a.V, a.w, a.E, a.next
+    jw = z3.Int("ghost_block_of_w")
+    x, y = z3.Ints("x!wf y!wf")
+    inblk = lambda k, t: z3.And(k >= 0, k < Ls, z3.Select(b, k) <= t, z3.Or(k == Ls - 1, t < z3.Select(b, k + 1)), t < V)
+    val = lambda k, t: z3.Select(g, k) + t - z3.Select(b, k)
+    hy = [Ls >= 1, Ls < (1 << 30), z3.Select(b, 0) == 0, w >= 0, w < V, a.left >= 1, a.left <= a.mx,
+          # WF in transitive form (follows from the adjacent form by induction on the index distance: lemma L-wf-transitive)
+          z3.ForAll([x, y], z3.Implies(z3.And(0 <= x, x < y, y < Ls),
+                                       z3.And(z3.Select(b, x) < z3.Select(b, y), z3.Select(g, x) < z3.Select(g, y),
+                                              z3.Select(b, y) - z3.Select(b, x) <= z3.Select(g, y) - z3.Select(g, x)))),
+          z3.ForAll([x], z3.Implies(z3.And(0 <= x, x < Ls), z3.And(z3.Select(b, x) >= 0, z3.Select(b, x) < V, z3.Select(g, x) >= 0, z3.Select(g, x) < U62))),
+          inblk(jw, w), nxt == val(jw, w),
+          z3.Implies(w == 0, z3.Select(g, 0) >= a.cursor),
+          nxt + a.start - (a.mx - a.left) >= 0]
+    for c in hy:
+        st.assume(c)
+    orows, ostw, wobj = a._objs
+    rows0 = st.mem[orows]
+    k1, k2 = z3.Ints("k1!top k2!top")
+
+    def ptop_with(t, c1, c2):
+        return z3.And(w < t, t <= V, inblk(c1, t - 1), val(c1, t - 1) < E, z3.Or(t == V, z3.And(inblk(c2, t), val(c2, t) >= E)))
+
+    def ptop(t, s, i):
+        """P(top): top-1 is the last position below the window end.  The block witnesses are ghost variables: when the
+        invariant is assumed they are the (havoced) ghost symbols, when it is proved the candidates are the old ghosts and
+        the blocks adjacent to the current one."""
+        gk1, gk2 = s.ghost.get("gk", (z3.Int("gk1!init"), z3.Int("gk2!init")))
+        if s.ghost.get("inv_mode") == "assume":
+            return ptop_with(t, gk1, gk2)
+        cands = [gk1, gk2, i - 1, i - 2, i - 3, i, Ls - 1]      # (the invariant is re-established after i++)
+        return z3.Or([ptop_with(t, c1, c2) for c1 in cands for c2 in cands])
+
+    def inv(it, s):
+        i = Z(local(it, s, fn, "i"))
+        pi, ps = Z(local(it, s, fn, "prev_index")), Z(local(it, s, fn, "prev_sample"))
+        bot, top = Z(local(it, s, fn, "bottom_index")), Z(local(it, s, fn, "top_index"))
+        return [("range", z3.And(i >= 0, i <= Ls)),
+                ("prev", z3.Implies(i > 0, z3.And(pi == z3.Select(b, i - 1), ps == z3.Select(g, i - 1)))),
+                ("bottom", z3.If(i <= jw + 1, bot == -1, bot == w)),
+                ("top", z3.Or(z3.And(top == -1, z3.ForAll([x], z3.Implies(z3.And(0 <= x, x < i), z3.Select(g, x) <= E))),
+                              z3.And(top != -1, ptop(top, s, i)))),
+                ("row_count_range", z3.And(Z(local(it, s, fn, "row_count")) >= 0, Z(local(it, s, fn, "row_count")) <= i)),
+                ("not_rejected", Z(s.mem[orows]) == Z(rows0))]
+
+    def havoc(it, s):
+        for nm in ("i", "this_index", "this_sample", "prev_index", "prev_sample", "bottom_index", "top_index", "row_count"):
+            set_local(it, s, fn, nm, fresh_int(nm))
+        s.ghost["gk"] = (fresh_int("ghost_k1"), fresh_int("ghost_k2"))
+
+    def inv2(it, s):
+        return [("rows_nonneg", Z(local(it, s, fn, "rows_written")) >= 0)]
+
+    def havoc2(it, s):
+        for nm in ("i", "this_index", "this_sample", "prev_index", "prev_sample", "rows_written"):
+            set_local(it, s, fn, nm, fresh_int(nm))
+        for oid, v in list(s.mem.items()):
+            if isinstance(v, ArrVal) and oid.startswith("heap"):
+                s.mem[oid] = ArrVal(z3.Array("ret_havoc!%d" % len(s.pc), z3.IntSort(), z3.IntSort()), v.length, v.elem)
+    n0 = len(interp.obls)
+    paths = interp.run_function(INDEX_FN, st, args, {"overflow": "check", "loops": {1: {"invariant": inv, "havoc": havoc},
+                                                                                    2: {"invariant": inv2, "havoc": havoc2}}})
+    out = []
+    for o in interp.obls[n0:]:
+        if o.kind == "inv" and ".loop1." in o.label:
+            o.label = o.label.replace(INDEX_FN + ".loop1", INDEX_FN + ".T_unbounded.loop")
+            out.append(o)
+        elif o.kind == "inv" and "rows_nonneg" in o.label:
+            o.label = INDEX_FN + ".T_unbounded.loop2." + o.label.split(".loop2.")[1]
+            out.append(o)
+        elif o.kind == "safety" and o.line < 1860:
+            # no-wrap / bounds obligations of the first pass and of the T computation, for every index_len
+            o.label = o.label.split(".")[0] + "." + INDEX_FN + ".T_unbounded"
+            out.append(o)
+    for s, rv in paths:
+        rows_out = Z(s.mem[orows])
+        T = Z(s.mem[ostw])
+        out.append(Obl("%s.T_unbounded.accepts_wellformed" % INDEX_FN, INDEX_FN, fn["_line"], s.pc, rows_out != -1, kind="post", qhyps=s.qpc))
+        s2 = s.copy()
+        s2.assume(rows_out != -1)
+        gk1, gk2 = s.ghost.get("gk", (Ls - 1, Ls - 1))
+        cands = [gk1, gk2, Ls - 1, Ls - 2, jw]
+        goal = z3.And(T >= 1, w + T <= V, T <= a.left,
+                      z3.Or([z3.And(inblk(c1, w + T - 1), val(c1, w + T - 1) < E) for c1 in cands]),
+                      z3.Or(w + T == V, z3.Or([z3.And(inblk(c2, w + T), val(c2, w + T) >= E) for c2 in cands])))
+        out.append(Obl("%s.T_unbounded.samples_to_write" % INDEX_FN, INDEX_FN, fn["_line"], s2.pc, goal, kind="post", qhyps=s2.qpc))
+    del interp.obls[n0:]
+    interp.obls.extend(out)
+    return a
